@@ -1,4 +1,5 @@
 #![allow(dead_code)]
+mod cfam;
 mod drive;
 mod indep;
 mod model;
@@ -24,6 +25,8 @@ fn main() {
         "C04" => run_check(&qfam::C04, &args),
         "C05" => run_check(&qfam::C05, &args),
         "C09" => run_check(&wfam::C09, &args),
+        "C13" => run_check(&cfam::C13, &args),
+        "C14" => run_check(&cfam::C14, &args),
         "C06" => run_check(&wfam::C06, &args),
         "C07" => run_check(&wfam::C07, &args),
         "C08" => run_check(&wfam::C08, &args),
